@@ -13,6 +13,7 @@ import (
 	"fmt"
 	"go/ast"
 	"go/parser"
+	"go/printer"
 	"go/token"
 	"os"
 	"path/filepath"
@@ -779,6 +780,7 @@ func tablePolicyCalls(repo string) string {
 	cnt := map[row]int{}
 	var order []row
 	ordered := map[string][]string{}
+	var ctors []string // (func, constructor, arguments) of every name-policy validator a provisioner builds
 	for _, dir := range policyDirs {
 		fset := token.NewFileSet()
 		files := parseDir(fset, filepath.Join(repo, dir))
@@ -808,6 +810,15 @@ func tablePolicyCalls(repo string) string {
 						}
 					case *ast.Ident:
 						callee = f.Name
+						if (callee == "newX509NamePolicyValidator" || callee == "newSSHNamePolicyValidator") && dir == "authority/provisioner" {
+							var args []string
+							for _, a := range c.Args {
+								var ab strings.Builder
+								printer.Fprint(&ab, fset, a)
+								args = append(args, strings.Join(strings.Fields(ab.String()), ""))
+							}
+							ctors = append(ctors, fmt.Sprintf("  (%s, %s, %s)", q(key), q(callee), q(strings.Join(args, ","))))
+						}
 					}
 					for _, w := range watch {
 						if w == callee {
@@ -850,7 +861,10 @@ func tablePolicyCalls(repo string) string {
 		}
 		fmt.Fprintf(&b, "  (%s, [%s])%s\n", q(k), strings.Join(xs, ", "), sep)
 	}
-	b.WriteString("]\n\nend Verif.Generated.PolicyCalls\n")
+	b.WriteString("]\n\n/-- the name-policy validators the provisioners build: (pkg/file:func, constructor, arguments) -/\n")
+	b.WriteString("def validators : List (String × String × String) := [\n")
+	b.WriteString(strings.Join(ctors, ",\n"))
+	b.WriteString("\n]\n\nend Verif.Generated.PolicyCalls\n")
 	return b.String()
 }
 
